@@ -34,6 +34,14 @@ def gen_cases(tier, seed):
                 continue
             cases.append({"id": "G/%s/%s/%s/%s/%d/%s" % (kind, pos, rgpos, state, nrg, mode), "kind": kind, "pos": pos, "rgpos": rgpos,
                           "state": state, "nrg": nrg, "mode": mode, "seed": 1800 + k})
+    # rejections that happen late (during conversion / encoding of the offending column or row group), with frames large enough that
+    # the aborted operation has already written more bytes than the old footer is long
+    for kind, pos, rgpos, state in itertools.product(["append_unencodable_value", "none_in_required", "bad_object_encoding", "complex_dtype", "bad_times"],
+                                                     ["first", "middle", "last"], ["first", "later"], STATES):
+        k += 1
+        for rows in ([3000] if tier == "quick" else [400, 3000, 20000]):
+            cases.append({"id": "B/%s/%s/%s/%s/%d" % (kind, pos, rgpos, state, rows), "kind": kind, "pos": pos, "rgpos": rgpos, "state": state,
+                          "nrg": 2, "mode": "append", "seed": 1900 + k, "rows": rows, "new_rows": rows})
     rng = np.random.default_rng([seed, 1818])
     for i in range(150 if tier == "quick" else 3000):
         cases.append({"id": "R/%d/%d" % (seed, i), "kind": KINDS[int(rng.integers(0, len(KINDS)))],
@@ -43,12 +51,15 @@ def gen_cases(tier, seed):
     return cases
 
 
-def base_frame(rng, n, rid0=0, part=False):
+def base_frame(rng, n, rid0=0, part=False, s_pos="middle"):
     import pandas as pd
     d = {"rid": np.arange(rid0, rid0 + n, dtype="int64"),
          "a": rng.integers(-100, 100, n).astype("int64"),
          "s": np.array(["t%d" % x for x in rng.integers(0, 30, n)], dtype=object),
          "f": rng.standard_normal(n)}
+    # the text column is the one that late rejections hit: place it first / middle / last among the data columns
+    order = {"first": ["rid", "s", "a", "f"], "middle": ["rid", "a", "s", "f"], "last": ["rid", "a", "f", "s"]}[s_pos]
+    d = {k_: d[k_] for k_ in order}
     if part:
         d["p"] = np.array(["x", "y"], dtype=object)[rng.integers(0, 2, n)]
     return pd.DataFrame(d)
@@ -118,7 +129,7 @@ def run_case(case):
     part = state == "hive_part"
     scheme = "simple" if state == "simple" else "hive"
     n = case.get("rows", 12)
-    df0 = base_frame(rng, n, 0, part)
+    df0 = base_frame(rng, n, 0, part, case["pos"])
     path = C.fresh_path(".parq" if scheme == "simple" else "")
     counters = {}
     res = {"features": [], "nontrivial": False, "failures": [], "counters": counters}
@@ -131,9 +142,11 @@ def run_case(case):
         fastparquet.write(path, df0, **base_kw)
         before_tab = fastparquet.ParquetFile(path).to_pandas(index=False)
         before_files = fsmon.snapshot(path)
+        before_bytes = open(path, "rb").read() if os.path.isfile(path) else None
         ctx = {("rejection" if k == "kind" else k): case[k] for k in ("kind", "pos", "rgpos", "state", "nrg", "mode")}
         kind = case["kind"]
-        new = base_frame(rng, n, n, part)
+        n_new = case.get("new_rows", n)
+        new = base_frame(rng, n_new, n, part, case["pos"])
         raised = None
         returned = False
         with fsmon.Audit(path) as aud:
@@ -152,7 +165,7 @@ def run_case(case):
                     if case["mode"] == "append":
                         kws["append"] = True
                     if case["nrg"] > 1:
-                        kws["row_group_offsets"] = max(1, n // 2)
+                        kws["row_group_offsets"] = max(1, n_new // 2)
                     fastparquet.write(path, bad, **kws)
                     returned = True
             except Exception as e:
@@ -193,6 +206,13 @@ def run_case(case):
                 f.update(ctx)
             res["failures"] += fl
             counters["snapshots_compared"] = 1
+            if before_bytes is not None and case["mode"] == "append":
+                after_bytes = open(path, "rb").read()
+                counters["single_file_bytes_compared"] = 1
+                if after_bytes != before_bytes:
+                    res["failures"].append({"kind": "single_file_bytes_changed_after_rejected_append", "size_before": len(before_bytes), "size_after": len(after_bytes),
+                                            "common_prefix": next((i_ for i_, (a_, b_) in enumerate(zip(before_bytes, after_bytes)) if a_ != b_), min(len(before_bytes), len(after_bytes))),
+                                            **ctx})
             # every file that existed must still parse on its own
             if os.path.isdir(path):
                 for rel in before_files:
